@@ -36,6 +36,11 @@ func limitsFor(profile string) []lisp.Config {
 			lisp.WithMaxMacroExpansionDepth(100),
 			lisp.WithMaxSleep(time.Millisecond),
 		}
+	case "fuzz-dbg":
+		// the fuzz limits with a (dormant) debugger attached: macro expansion
+		// then also stamps per-node expansion metadata, and tail calls are
+		// not elided
+		return append(limitsFor("fuzz"), lisp.WithDebugger(el.Dormant{}))
 	case "sweep":
 		return []lisp.Config{
 			lisp.WithMaxSteps(200_000),
@@ -63,7 +68,7 @@ func newEnv(profile string) *el.Env {
 	// the fuzz profile (all text, depth and sink spaces) loads through the
 	// production reader parser.NewReader(), exactly as newFuzzEnv does; the
 	// registry sweeps use the same lexer and parser over a string scanner
-	env := el.MustEnv(el.Opts{Stdlib: true, ProdReader: profile == "fuzz", Configs: limitsFor(profile), Builtins: []lisp.LBuiltinDef{
+	env := el.MustEnv(el.Opts{Stdlib: true, ProdReader: strings.HasPrefix(profile, "fuzz"), Configs: limitsFor(profile), Builtins: []lisp.LBuiltinDef{
 		el.Fn("c03-host", []string{"id"}, func(env *lisp.LEnv, args *lisp.LVal) *lisp.LVal {
 			id := args.Cells[0]
 			if id.Type != lisp.LString {
@@ -562,11 +567,14 @@ func (x *executor) run(k *kase, reuse int) (r result) {
 // fatalClass names why a worker died from its stderr: the Go runtime's fatal
 // error and the function that dominates the dying goroutine's stack.
 func fatalClass(stderr string, wedged bool) (reason, where string) {
-	if wedged {
-		return "wedged", ""
-	}
 	reason = "killed"
+	if wedged {
+		reason = "wedge"
+	}
 	for _, ln := range strings.Split(stderr, "\n") {
+		if wedged {
+			break // the SIGQUIT dump of a wedged worker is not a fatal error of its own
+		}
 		if strings.HasPrefix(ln, "fatal error: ") {
 			reason = strings.ReplaceAll(strings.TrimSpace(strings.TrimPrefix(ln, "fatal error: ")), " ", "-")
 			break
